@@ -3,7 +3,8 @@ from .xsbase import *
 from . import enumprogs
 import os, re
 
-GOOD = ['1 2', '"s" 5', ': sq dup * ; 3 sq', '7 var keep', '[ 1 2 ] { 3 "k" }', '#( 9 const NINE #) NINE', '', '10 20 30 rot',
+GOOD = ['3 0 do 1 0 / loop', ': lf 4 0 do I 2 == if "x" 1 + then loop ; lf', '2 0 do 2 0 do I J + 1 == if nil 1 + then loop loop',
+        '1 2', '"s" 5', ': sq dup * ; 3 sq', '7 var keep', '[ 1 2 ] { 3 "k" }', '#( 9 const NINE #) NINE', '', '10 20 30 rot',
         ': twice dup + ; 1 var cnt', '|ff 00| open-bitstr u8']
 PREFIX = ['', '1', '1 2 3', ': f 1', ': f local a a', '[ 1', '[ 1 [ 2', '{ 1', '1 if 2', '1 if 2 else', 'begin', 'begin 1 while', '3 0 do', '3 0 do I',
           '1 case 1 of', '#( 1 2', '#( : h 5 ; h', '#( [ 1', '1 var q', '1 var q q', ': g 1 ; g', '#( 7 const K #)', '#( 7 const K #) K', ': f #( 1',
@@ -19,7 +20,7 @@ META_OPEN_FAIL = ['#( 1 if #)', '#( 3 0 do ~)', '#( begin #)', '#( [ 1 #)', '#( 
                   '#( #( 1 if #) #)', '#( { 1 ~)']
 TRAIL = ['', ' 2 3', ' : z 9 ;', ' ] then', ' 100 var late_var', ' #( 4 #)', ' "tail" print', ' drop drop', ' ; ]']
 OPEN_END = ['1 if', ': f 1', '#( 1', '[ 1', '{ 1 2', 'begin 1', '3 0 do', '1 case', ': f if 1 then', '#( [ 1 2', '^{ 1']
-PROBES = ['4', 'depth', '1 var x x', ': f 1 ; f', '[ 1 ]', '.s', '#( 2 3 + #)', 'K', 'q', 'z', 'h', 'a', 'g', '1 if 2 then', '3 0 do I loop',
+PROBES = ['I', 'J', '2 0 do J loop', '4', 'depth', '1 var x x', ': f 1 ; f', '[ 1 ]', '.s', '#( 2 3 + #)', 'K', 'q', 'z', 'h', 'a', 'g', '1 if 2 then', '3 0 do I loop',
           '[ 5 6 ] let [ p1 p2 ] p1 p2', 'keep', 'NINE', 'late_var', 'w', 'dup', 'remain', 'x', '1 2 +']
 
 
@@ -59,6 +60,24 @@ class C10(XsProp):
         # sessions around `enum ... endenum` (plain, nested, unbalanced, failing with an open enum and then later sources, under limits,
         # recording on): compared with the mirror model only (no clone, so the group predicate skips them)
         cs += enumprogs.cases(rng, 150 if tier == 'quick' else 4000, thorough=(tier != 'quick'), errloc=False, findings=False)
+        # a source rejected while an earlier program is stopped in the middle of a loop / call: the program resumes as if nothing happened
+        for i in range(60 if tier == 'quick' else 1500):
+            prog = rng.choice(['3 0 do I loop', '2 0 do 3 0 do I J loop loop', ': w 3 0 do I loop ; w w', '0 begin 1 + dup 4 > until', '[ 5 6 7 ] foreach I loop 9',
+                               ': a 1 2 ; : b a a ; b b', '3 0 do I 1 == if break then I loop 8'])
+            k = rng.randint(1, 12)
+            bad = (rng.choice(PREFIX) + ' ' + rng.choice(FAIL + META_OPEN_FAIL) + rng.choice(TRAIL)).strip()
+            pr = 'run | stack | out | eval %s | stack | out' % hexsrc(rng.choice(PROBES))
+            steps = ['xs limits 4000 - -', 'compile %s' % hexsrc(prog)] + ['next'] * k + \
+                    ['clone', 'clone', 'use 2', 'compile %s' % hexsrc(bad), 'use 0', '%s %s' % (rng.choice(['eval', 'compile']), hexsrc(bad)), 'out', pr, 'dump', 'use 1', pr, 'dump']
+            cs.append(' | '.join(steps))
+        # witnesses of repaired defects (must pass): D37 - a meta block of the enum builder whose pending code fails while it is closed
+        for goods, bad, probes in [([], ': f 1 ; 5 enum E #) 1 0 / #( endenum', ['f', 'depth', ': f 2 ; f']),
+                                   (['7 var keep'], ': g 1 ; enum E #) "a" 1 + #( endenum 3', ['g', 'keep', 'E']),
+                                   ([': sq dup * ;'], '1 2 enum E : A #) nosuchword #( endenum', ['A', '3 sq', 'depth'])]:
+            pr = ' | '.join('eval %s | stack | out' % hexsrc(p) for p in probes)
+            steps = ['xs limits 4000 - -'] + ['eval %s' % hexsrc(g) for g in goods] + \
+                    ['clone', 'clone', 'use 2', 'compile %s' % hexsrc(bad), 'use 0', 'eval %s' % hexsrc(bad), 'out', pr, 'dump', 'use 1', pr, 'dump']
+            cs.append(' | '.join(steps))
         # recorded findings D30-D32 (witnesses; each must keep failing the way it is recorded)
         for goods, bad, probes in self.WITNESS:
             pr = ' | '.join('eval %s | stack | out' % hexsrc(p) for p in probes)
